@@ -857,3 +857,37 @@ package flags
 // active chain or a demanded positional is really missing; the membership invariant needed for it
 // is unstable in the solvers)
 //@   assigns p.err
+
+// ===================================================================
+// multitag.go: the struct-tag scanner
+// ===================================================================
+
+// nb(v): number of leading blanks; keyLen(v): length of the leading run free of
+// blank, colon and quote; endq(v, i): index of the first unescaped double quote
+// at or after i (a backslash skips the byte after it), or >= len(v) if none.
+//@ pure func nb(v string) int = ite(len(v) > 0 && v[0] == ' ', 1 + nb(v[1:]), 0)
+//@ pure func keyLen(v string) int = ite(len(v) > 0 && v[0] != ' ' && v[0] != ':' && v[0] != '"', 1 + keyLen(v[1:]), 0)
+//@ pure func endq(v string, i int) int = ite(i >= len(v), i, ite(v[i] == '"', i, ite(v[i] == '\\', endq(v, i+2), endq(v, i+1))))
+// One key:"value" pair at the front of w (w does not start with a blank):
+//@ pure func pairName(w string) string = w[:keyLen(w)]
+// (written in the shape in which the scanner slices, so that no lemma about nested substrings is needed)
+//@ pure func afterKey(w string) string = w[keyLen(w)+1:]
+//@ pure func pairLit(w string) string = afterKey(w)[:endq(afterKey(w), 1)+1]
+//@ pure func pairRest(w string) string = afterKey(w)[endq(afterKey(w), 1)+1:]
+// tagAcc(v, acc): acc extended, left to right, by every pair of v (values unquoted, repeated keys accumulate in order).
+//@ pure func tagAcc(v string, acc map[string][]string) map[string][]string = ite(v[nb(v):] == "", acc, tagAcc(pairRest(v[nb(v):]), mapset(acc, pairName(v[nb(v):]), append(acc[pairName(v[nb(v):])], fst(strconv.Unquote(pairLit(v[nb(v):])))))))
+
+//@ func (x *multiTag) scan() (m map[string][]string, err error)
+//@   props C19 C04
+//@   requires x != nil
+//@   loop 1 invariant !isnil(ret) && unfold(tagAcc(v, ret)) && tagAcc(v, ret) == tagAcc(x.value, make(map[string][]string))
+//@   loop 1 decreases len(v)
+//@   loop 2 invariant 0 <= i && i <= len(v) && unfold(nb(v[i:])) && nb(v) == i + nb(v[i:])
+//@   loop 2 decreases len(v) - i
+//@   loop 3 invariant 0 <= i && i <= len(v) && unfold(keyLen(v[i:])) && keyLen(v) == i + keyLen(v[i:])
+//@   loop 3 decreases len(v) - i
+//@   loop 4 invariant 1 <= i && i <= len(v) + 1 && unfold(endq(v, i)) && endq(v, i) == endq(v, 1)
+//@   loop 4 decreases len(v) + 1 - i
+//@   ensures[C19] err != nil ==> m == nil && isTyped(err, ErrTag)
+//@   ensures[C19] err == nil ==> m == tagAcc(x.value, make(map[string][]string))
+//@   assigns nothing
